@@ -1,7 +1,7 @@
 (* area asn1: dispatch table of model units for the correspondence check (val -> val). *)
 From Coq Require Import String.
 From V Require Import Prelude.Base Prelude.PyInt Prelude.PySlice Prelude.PyStr Prelude.Val gen.K_asn1 gen.C_asn1.
-From V Require Import Model.Asn1.
+From V Require Import Model.Asn1 Spec.DerSpec.
 
 Definition tag_of_val (v : val) : option (option tag) :=
   match v with
@@ -199,10 +199,23 @@ Definition u_walk (a : val) : val :=
   | _ => bad
   end.
 
+(* asn1.strict : the strict DER reader of Spec/DerSpec.v (calibrates the Python oracle of the check) *)
+Fixpoint val_of_tree (x : asn1) : val :=
+  match x with
+  | Prim t c => VL [VI (t_class t); VI (t_num t); vbool (t_cons t); VB c]
+  | Cons t l => VL [VI (t_class t); VI (t_num t); vbool (t_cons t); VL (map val_of_tree l)]
+  | Raw b => VB b
+  end.
+Definition u_strict (a : val) : val :=
+  match a with
+  | VB b => match strict_parse b with Some l => VL (map val_of_tree l) | None => VN end
+  | _ => bad
+  end.
+
 Open Scope string_scope.
 Definition units : list (string * (val -> val)) :=
   [ ("echo", fun v => v); ("asn1.int", u_int); ("asn1.int_range", u_int_range); ("asn1.int_content", u_int_content);
-    ("asn1.tlv", u_tlv); ("asn1.oid", u_oid); ("asn1.tree", u_tree); ("asn1.walk", u_walk) ].
+    ("asn1.tlv", u_tlv); ("asn1.oid", u_oid); ("asn1.tree", u_tree); ("asn1.walk", u_walk); ("asn1.strict", u_strict) ].
 
 Fixpoint lookup (n : string) (l : list (string * (val -> val))) : option (val -> val) :=
   match l with
